@@ -406,7 +406,7 @@ static void mode_solve(int shard, int nshards) {
     std::vector<int> order(8 * 9 * 4);
     for (size_t i = 0; i < order.size(); ++i) order[i] = i;
     { vr::rng g(seed * 7919 + 11); for (size_t k = order.size(); k > 1; --k) std::swap(order[k - 1], order[g.below((int)k)]); }
-    int rounds = th ? 12 : 2;
+    int rounds = th ? 30 : 2;
     long cfgid = 0;
     for (int round = 0; round < rounds; ++round)
     for (size_t oi = 0; oi < order.size(); ++oi) {
@@ -462,7 +462,7 @@ static void mode_solve(int shard, int nshards) {
 static void mode_spd(int shard, int nshards) {
     uint64_t seed = vr::env_seed();
     bool th = vr::thorough();
-    int nprob = th ? 4 : 2;
+    int nprob = th ? 6 : 2;
     long cfgid = 0;
     for (int pi = 0; pi < nprob; ++pi) {
         vr::rng g(seed * 104729ull + pi * 13 + 5);
